@@ -104,7 +104,7 @@ class error_html(object):
         #while errh
         ele_pos_map = {}
         for err_node in err_node_list:
-            for ele in err_node.elements:
+            for ele in self._elements_of(err_node, seg_data):
                 ele_pos_map[ele.ele_pos] = ele.subele_pos
 
         t_seg = []  # list of formatted elements
@@ -147,12 +147,20 @@ class error_html(object):
                 if err_cde != '3':
                     self.fd.write('<span class="error">&nbsp;%s (Segment Error Code: %s)</span><br />\n' %
                                   (escape_html_chars(err_str), err_cde))
-            for ele in err_node.elements:
+            for ele in self._elements_of(err_node, seg_data):
                 for (err_cde, err_str, err_val) in ele.get_error_list(seg_data.get_seg_id(), False):
                 #for (err_cde, err_str, err_val) in ele.errors:
-                    if not (seg_data.get_seg_id() == 'GE' and 'GS' in err_str):  # Ugly hack
-                        self.fd.write('<span class="error">&nbsp;%s (Element Error Code: %s)</span><br />\n' %
-                                      (escape_html_chars(err_str), err_cde))
+                    self.fd.write('<span class="error">&nbsp;%s (Element Error Code: %s)</span><br />\n' %
+                                  (escape_html_chars(err_str), err_cde))
+
+    @staticmethod
+    def _elements_of(err_node, seg_data):
+        """
+        The element error nodes that belong to this segment: the node of an interchange,
+        group or set holds those of its header and those of its trailer
+        """
+        seg_id = seg_data.get_seg_id()
+        return [ele for ele in err_node.elements if getattr(ele, 'seg_id', None) in (None, seg_id)]
 
     def _seg_str(self, seg_id, ele_list):
         """
